@@ -409,6 +409,16 @@ let fsedesc_line line =
        Printf.sprintf "ok %s %s %s" (hex d) okb back)
   | _ -> "bad"
 
+(* hufweights <hex real description+stream> <hex weights> : the model reads the description, writes the two-state stream
+   again and decodes the whole: prints used, the model's stream, the weights read back *)
+let hufweights_line line =
+  match List.filter (fun x -> x <> "") (split_on ' ' line) with
+  | [real; data] ->
+    (match M.weights_rewrite (unhex real) (unhex data) with
+     | M.ROk ((used, stream), ws) -> Printf.sprintf "ok %s %s %s" (z_to_string used) (hex stream) (hex ws)
+     | M.RErr _ -> "err" | M.RPanic _ -> "panic")
+  | _ -> "bad"
+
 let () =
   let cmd = if Array.length Sys.argv > 1 then Sys.argv.(1) else "" in
   let f = match cmd with
@@ -427,6 +437,7 @@ let () =
     | "hufstream" -> hufstream_line
     | "hufdec" -> hufdec_line
     | "fsedesc" -> fsedesc_line
+    | "hufweights" -> hufweights_line
     | "bits64" -> bits_line 0
     | "bitsabs" -> bits_line 1
     | _ -> prerr_endline "usage: driver <prog|fse|huf> < cases"; exit 2 in
